@@ -193,7 +193,7 @@ def facts(p: dict[str, Any]) -> set[str]:
     return out
 
 
-FAULT_PLANS = ("lose-0005-class-masks", "lose-0005", "lose-000C-actuators", "lose-000C-sensors", "lose-000C-dhw", "lose-000C-app", "lose-random", "lose-all-first-hour")
+FAULT_PLANS = ("lose-0005-class-masks", "lose-0005", "lose-000C-actuators", "lose-000C-sensors", "lose-000C-dhw", "lose-000C-app", "lose-random", "lose-all-first-hour", "jam-000C", "jam-0005")
 
 
 class Faults:
@@ -205,10 +205,19 @@ class Faults:
 
     def __call__(self, kind: str, frame: str, target: str) -> list[float]:
         base = 0.004 if kind == "echo" else 0.012
-        if self.plan == "none" or kind == "echo" or self.loop.time() > 3600.0:
+        if self.plan == "none" or self.loop.time() > 3600.0:
             return [base]
         direction = "to_sim" if target == "sim" else "to_gwy"
         code, pay = frame[37:41], frame[46:]
+        if self.plan.startswith("jam-"):
+            # the channel is busy whenever the stick tries one kind of request: nothing goes out and the stick has
+            # no echo to give, on any of the transmissions - the send *fails* (a lost reply would not show)
+            if code == self.plan[4:] and frame[:2] == "RQ" and (kind == "echo" or direction == "to_sim"):
+                self.applied += 1
+                return []
+            return [base]
+        if kind == "echo":
+            return [base]
         hit = False
         if self.plan == "lose-all-first-hour":
             hit = direction == self.direction
@@ -238,8 +247,8 @@ async def scenario(loop: vloop.VirtualLoop, ctx, trial: int) -> None:
     rng = random.Random(f"C12/{ctx.seed}/{trial}")
     cfg = gen_config(rng)
     plan = FAULT_PLANS[(trial // 2) % len(FAULT_PLANS)] if trial % 2 else "none"
-    if ctx.quick and plan != "none" and trial % 4 != 1:
-        plan = "none"  # quick tier: one faulted (26 virtual hours) scenario in four
+    if ctx.quick:  # quick tier: one faulted (five virtual days) scenario in four, walking through all the plans
+        plan = FAULT_PLANS[(trial // 4) % len(FAULT_PLANS)] if trial % 4 == 1 else "none"
     faults = Faults(loop, rng, plan)
     air = airmod.Air(loop, fault=faults)
     sim = SimCtl(loop, air, ctx, cfg)
